@@ -98,7 +98,11 @@ func decodeWire(ver, hb byte, rem int, body []byte) (pk packets.Packet, err erro
 	fh.Remaining = rem
 	pk.ProtocolVersion = ver
 	pk.FixedHeader = fh
-	px := append([]byte{}, body...)
+	// a copy whose capacity equals its length: any read past the end of the packet body panics instead of
+	// silently returning bytes of the backing array (C27: no overread)
+	px := make([]byte, len(body))
+	copy(px, body)
+	px = px[:len(body):len(body)]
 	switch fh.Type {
 	case packets.Connect:
 		err = pk.ConnectDecode(px)
@@ -441,6 +445,66 @@ func init() {
 			}
 		}
 	}
+	// every truncation of valid encodings: for each catalogue vector and generated packet, every proper
+	// prefix of the body, decoded with the prefix length and with the original remaining length
+	suites["codectrunc"] = suite{gen: func(r *rand.Rand, n int, emit func(string)) {
+		count := 0
+		trunc := func(ver byte, bs []byte) {
+			if len(bs) < 2 {
+				return
+			}
+			rd := bytes.NewBuffer(bs[1:])
+			rem, _, err := packets.DecodeLength(rd)
+			if err != nil {
+				return
+			}
+			body := rd.Bytes()
+			if len(body) > 96 {
+				return
+			}
+			for k := 0; k < len(body); k++ {
+				emit(fmt.Sprintf("c.dec %d %d %d %s", ver, bs[0], k, hx(body[:k])))
+				if r.Intn(4) == 0 {
+					emit(fmt.Sprintf("c.dec %d %d %d %s", ver, bs[0], rem, hx(body[:k])))
+					count++
+				}
+				count++
+			}
+		}
+		var vecs [][]byte
+		var vers []byte
+		for t := byte(1); t <= 15; t++ {
+			for _, c := range packets.TPacketData[t] {
+				ver := byte(4)
+				if c.Packet != nil && c.Packet.ProtocolVersion != 0 {
+					ver = c.Packet.ProtocolVersion
+				}
+				vecs = append(vecs, c.RawBytes)
+				vers = append(vers, ver)
+			}
+		}
+		// a random rotation of the catalogue, then generated packets, until n ops are out
+		off := r.Intn(len(vecs))
+		for i := 0; i < len(vecs) && count < n/2; i++ {
+			j := (off + i) % len(vecs)
+			trunc(vers[j], vecs[j])
+		}
+		for count < n {
+			pk := genPacket(r)
+			buf := new(bytes.Buffer)
+			func() {
+				defer func() { recover() }()
+				if err := encodeAny(&pk, buf); err != nil {
+					buf.Reset()
+				}
+			}()
+			if buf.Len() >= 2 {
+				trunc(pk.ProtocolVersion, append([]byte{}, buf.Bytes()...))
+			} else {
+				count++
+			}
+		}
+	}}
 	suites["codec"] = suite{gen: func(r *rand.Rand, n int, emit func(string)) {
 		// fixed witnesses first
 		emit("c.dec 5 130 6 000100000161") // v5 SUBSCRIBE without options byte (formerly a panic)
